@@ -39,12 +39,14 @@ mod multi;
 mod oblig;
 mod rcv;
 mod keyupd;
+mod txready;
 
 pub use snapshot::{PathSnap, Snapshot, SpaceSnap, StreamsSnap};
 pub use inject::{FrameProbe, Inject, StreamProbe};
 pub use txlog::{TxLog, TxPkt};
 pub use multi::{ConnCidView, EndpointView, MetaView};
 pub use oblig::{Oblig, SendOb, StreamsOb};
+pub use txready::TxReady;
 
 pub(crate) fn hex(b: &[u8]) -> String {
     if b.is_empty() {
